@@ -1,6 +1,1889 @@
-//! C18 — not built yet.
+//! C18 — pool failover within the deadline.
+//!
+//! Implementation under test: the real `hickory_resolver::NameServerPool` (`send` → `try_send` →
+//! `NameServer::send`) built with the public constructors the upstream pool tests use
+//! (`NameServer::new`, `NameServerPool::from_nameservers`) over a scripted `ConnectionProvider`:
+//! one scripted `DnsHandle` per (server ip, protocol) whose replies and latencies come from the case
+//! line.  Time:
+//!
+//! * mode `A` (logic): a tiny discrete-event executor drives the pool's futures; every latency and
+//!   every back-off sleep (`RuntimeProvider::Timer::delay_for`) is *virtual* and exact, so results,
+//!   exchange logs and completion times are compared with the Lean model to the millisecond.  The
+//!   pool's deadline is read from `std::time::Instant` (real clock), which does not advance with
+//!   virtual time, so mode A cases carry a timeout far above any virtual completion time and only
+//!   exercise the deadline-free logic.
+//! * mode `B` (deadline): the same executor *paces* virtual time against the real clock (an event
+//!   with virtual time `v` fires no earlier than `start + v`), so the pool's real-clock deadline is
+//!   live.  Only the result class, the exchange order and a coarse `late` flag are compared with the
+//!   model, and only when the run was valid (no event fired more than `J_US` late) and robust (no
+//!   decision point within `M_US` of the deadline / of another reply); otherwise the line is `~`.
+//!
+//! The oracle (property clauses evaluated on the implementation's own log, independent of the
+//! model) is in `oracle()`.
+use std::cell::RefCell;
+use std::collections::{BinaryHeap, HashMap};
+use std::future::Future;
+use std::io;
+use std::net::{IpAddr, Ipv4Addr, SocketAddr};
+use std::pin::Pin;
+use std::str::FromStr;
+use std::sync::atomic::{AtomicBool, Ordering as AO};
+use std::sync::{Arc, Mutex};
+use std::task::{Context, Poll, Wake, Waker};
+use std::time::{Duration, Instant};
+
+use async_trait::async_trait;
+use futures_util::future::{self, Either};
+use futures_util::stream::{once, Stream};
+
+use hickory_net::runtime::{RuntimeProvider, Time, TokioHandle, TokioRuntimeProvider};
+use hickory_net::xfer::{DnsHandle, FirstAnswer};
+use hickory_net::{DnsError, NetError, NoRecords};
+use hickory_proto::op::{DnsRequest, DnsRequestOptions, DnsResponse, Message, Query, ResponseCode};
+use hickory_proto::rr::{Name, RData, Record, RecordType};
+use hickory_resolver::config::{
+    ConnectionConfig, NameServerConfig, ProtocolConfig, ResolverOpts, ServerOrderingStrategy,
+};
+use hickory_resolver::{ConnectionProvider, NameServer, NameServerPool, PoolContext, TlsConfig};
+
 use crate::common::*;
 
-pub fn run(_o: &Opts, rec: &mut Recorder) {
-    rec.rule = "stub".into();
+// ------------------------------------------------------------------------------------------------
+// discrete-event executor (virtual time, optionally paced against the real clock)
+// ------------------------------------------------------------------------------------------------
+
+/// max lateness of any event for a paced run to count as a run of the scripted case
+const J_US: u64 = 8_000;
+/// decision margin below which a paced case is not compared with the model
+const M_US: u64 = 25_000;
+/// tolerance of the deadline oracle (real clock)
+const TOL_US: u64 = 40_000;
+
+struct Sim {
+    now_us: u64,
+    seq: u64,
+    timers: BinaryHeap<std::cmp::Reverse<(u64, u64)>>,
+    wakers: HashMap<u64, Waker>,
+    pace: Option<Instant>,
+    max_late_us: u64,
+    /// completed Timer::delay_for sleeps that were started while no request was in flight, i.e. the
+    /// back-off sleeps (the others are the per-reply deadline timers): (virtual start, requested µs)
+    delays: Vec<(u64, u64)>,
+    /// deadline timers that fired: (virtual start, requested µs)
+    cuts: Vec<(u64, u64)>,
+    /// scripted requests started and neither answered nor dropped yet
+    inflight: u64,
+}
+
+impl Sim {
+    fn new() -> Self {
+        Self { now_us: 0, seq: 0, timers: BinaryHeap::new(), wakers: HashMap::new(), pace: None, max_late_us: 0, delays: vec![], cuts: vec![], inflight: 0 }
+    }
+}
+
+thread_local! {
+    static SIM: RefCell<Sim> = RefCell::new(Sim::new());
+}
+
+fn sim_now() -> u64 {
+    SIM.with(|s| s.borrow().now_us)
+}
+
+/// real offset since the start of the paced run (µs); virtual now when not paced
+fn real_off() -> u64 {
+    SIM.with(|s| {
+        let s = s.borrow();
+        match s.pace {
+            Some(t0) => t0.elapsed().as_micros() as u64,
+            None => s.now_us,
+        }
+    })
+}
+
+struct VSleep {
+    deadline: u64,
+    id: Option<u64>,
+}
+
+impl VSleep {
+    /// sleeps `d_us` of virtual time from the current virtual instant
+    fn after(d_us: u64) -> Self {
+        Self { deadline: sim_now() + d_us, id: None }
+    }
+    fn until(t_us: u64) -> Self {
+        Self { deadline: t_us, id: None }
+    }
+}
+
+impl Future for VSleep {
+    type Output = ();
+    fn poll(mut self: Pin<&mut Self>, cx: &mut Context<'_>) -> Poll<()> {
+        SIM.with(|s| {
+            let mut s = s.borrow_mut();
+            if s.now_us >= self.deadline {
+                if let Some(id) = self.id.take() {
+                    s.wakers.remove(&id);
+                }
+                return Poll::Ready(());
+            }
+            match self.id {
+                Some(id) => {
+                    s.wakers.insert(id, cx.waker().clone());
+                }
+                None => {
+                    s.seq += 1;
+                    let id = s.seq;
+                    s.timers.push(std::cmp::Reverse((self.deadline, id)));
+                    s.wakers.insert(id, cx.waker().clone());
+                    self.id = Some(id);
+                }
+            }
+            Poll::Pending
+        })
+    }
+}
+
+impl Drop for VSleep {
+    fn drop(&mut self) {
+        if let Some(id) = self.id.take() {
+            // a cancelled timer must not advance the clock
+            let _ = SIM.try_with(|s| {
+                if let Ok(mut s) = s.try_borrow_mut() {
+                    s.wakers.remove(&id);
+                }
+            });
+        }
+    }
+}
+
+struct Flag(AtomicBool);
+impl Wake for Flag {
+    fn wake(self: Arc<Self>) {
+        self.0.store(true, AO::SeqCst);
+    }
+    fn wake_by_ref(self: &Arc<Self>) {
+        self.0.store(true, AO::SeqCst);
+    }
+}
+
+#[derive(Debug)]
+enum SimErr {
+    /// the future is pending and no timer is armed
+    Deadlock,
+    /// more than `max_fires` timers fired
+    Runaway,
+}
+
+/// Drives `fut` to completion on the calling thread.
+fn sim_run<F: Future>(fut: F, paced: bool, max_fires: usize) -> Result<F::Output, SimErr> {
+    SIM.with(|s| {
+        let mut s = s.borrow_mut();
+        *s = Sim::new();
+        if paced {
+            s.pace = Some(Instant::now());
+        }
+    });
+    let flag = Arc::new(Flag(AtomicBool::new(false)));
+    let waker = Waker::from(flag.clone());
+    let mut cx = Context::from_waker(&waker);
+    let mut fut = std::pin::pin!(fut);
+    let mut fires = 0usize;
+    loop {
+        flag.0.store(false, AO::SeqCst);
+        if let Poll::Ready(v) = fut.as_mut().poll(&mut cx) {
+            return Ok(v);
+        }
+        if flag.0.load(AO::SeqCst) {
+            continue;
+        }
+        // quiescent: advance virtual time to the next live timer
+        let next = SIM.with(|s| {
+            let mut s = s.borrow_mut();
+            loop {
+                match s.timers.pop() {
+                    None => return None,
+                    Some(std::cmp::Reverse((dl, id))) => {
+                        if s.wakers.contains_key(&id) {
+                            return Some((dl, id, s.pace));
+                        }
+                    }
+                }
+            }
+        });
+        let Some((dl, id, pace)) = next else { return Err(SimErr::Deadlock) };
+        fires += 1;
+        if fires > max_fires {
+            return Err(SimErr::Runaway);
+        }
+        if let Some(t0) = pace {
+            let target = t0 + Duration::from_micros(dl);
+            let now = Instant::now();
+            if target > now {
+                std::thread::sleep(target - now);
+            }
+            let late = Instant::now().saturating_duration_since(target).as_micros() as u64;
+            SIM.with(|s| {
+                let mut s = s.borrow_mut();
+                s.max_late_us = s.max_late_us.max(late);
+            });
+        }
+        let w = SIM.with(|s| {
+            let mut s = s.borrow_mut();
+            s.now_us = s.now_us.max(dl);
+            s.wakers.remove(&id)
+        });
+        if let Some(w) = w {
+            w.wake();
+        }
+    }
+}
+
+// ------------------------------------------------------------------------------------------------
+// scripted RuntimeProvider / ConnectionProvider / DnsHandle
+// ------------------------------------------------------------------------------------------------
+
+#[derive(Clone, Copy)]
+pub struct SimTime;
+
+#[async_trait]
+impl Time for SimTime {
+    async fn delay_for(duration: Duration) {
+        // the pool's back-off sleep.  Like tokio's sleep it never returns early on the real clock:
+        // in paced mode it is anchored at the real offset, which re-synchronises virtual time.
+        let d = duration.as_micros() as u64;
+        let (v, base, racing) = SIM.with(|s| {
+            let s = s.borrow();
+            let v = s.now_us;
+            let base = match s.pace {
+                Some(t0) => v.max(t0.elapsed().as_micros() as u64),
+                None => v,
+            };
+            (v, base, s.inflight > 0)
+        });
+        VSleep::until(base.saturating_add(d)).await;
+        // only sleeps that ran to their end are recorded (a deadline timer is dropped when a reply wins)
+        SIM.with(|s| {
+            let mut s = s.borrow_mut();
+            if racing {
+                s.cuts.push((v, d));
+            } else {
+                s.delays.push((v, d));
+            }
+        });
+    }
+
+    async fn timeout<F: 'static + Future + Send>(duration: Duration, future: F) -> Result<F::Output, io::Error> {
+        let sleep = VSleep::after(duration.as_micros() as u64);
+        match future::select(Box::pin(future), sleep).await {
+            Either::Left((v, _)) => Ok(v),
+            Either::Right(_) => Err(io::Error::new(io::ErrorKind::TimedOut, "future timed out")),
+        }
+    }
+}
+
+#[derive(Clone)]
+pub struct SimRuntime;
+
+impl RuntimeProvider for SimRuntime {
+    type Handle = TokioHandle;
+    type Timer = SimTime;
+    type Udp = <TokioRuntimeProvider as RuntimeProvider>::Udp;
+    type Tcp = <TokioRuntimeProvider as RuntimeProvider>::Tcp;
+
+    fn create_handle(&self) -> Self::Handle {
+        TokioHandle::default()
+    }
+    fn connect_tcp(
+        &self,
+        _server_addr: SocketAddr,
+        _bind_addr: Option<SocketAddr>,
+        _timeout: Option<Duration>,
+    ) -> Pin<Box<dyn Send + Future<Output = Result<Self::Tcp, io::Error>>>> {
+        Box::pin(async { Err(io::Error::other("scripted pool: no sockets")) })
+    }
+    fn bind_udp(
+        &self,
+        _local_addr: SocketAddr,
+        _server_addr: SocketAddr,
+    ) -> Pin<Box<dyn Send + Future<Output = Result<Self::Udp, io::Error>>>> {
+        Box::pin(async { Err(io::Error::other("scripted pool: no sockets")) })
+    }
+}
+
+#[derive(Clone, Copy, PartialEq, Eq, Debug)]
+enum Rep {
+    Ans,
+    Nx,
+    Nd,
+    Sf,
+    Rf,
+    Tc,
+    To,
+    Io,
+    Rst,
+    Busy,
+    Cm,
+}
+
+impl Rep {
+    fn parse(s: &str) -> Option<Self> {
+        Some(match s {
+            "ans" => Self::Ans,
+            "nx" => Self::Nx,
+            "nd" => Self::Nd,
+            "sf" => Self::Sf,
+            "rf" => Self::Rf,
+            "tc" => Self::Tc,
+            "to" => Self::To,
+            "io" => Self::Io,
+            "rst" => Self::Rst,
+            "busy" => Self::Busy,
+            "cm" => Self::Cm,
+            _ => return None,
+        })
+    }
+    fn tok(self) -> &'static str {
+        match self {
+            Self::Ans => "ans",
+            Self::Nx => "nx",
+            Self::Nd => "nd",
+            Self::Sf => "sf",
+            Self::Rf => "rf",
+            Self::Tc => "tc",
+            Self::To => "to",
+            Self::Io => "io",
+            Self::Rst => "rst",
+            Self::Busy => "busy",
+            Self::Cm => "cm",
+        }
+    }
+    /// transport faults of the property: unreachable / reset / timeout / busy back-pressure
+    fn is_fault(self) -> bool {
+        matches!(self, Self::To | Self::Io | Self::Rst | Self::Busy)
+    }
+}
+
+#[derive(Clone, Copy, Debug)]
+struct Step {
+    rep: Rep,
+    lat_ms: u64,
+}
+
+#[derive(Clone, Debug)]
+struct Srv {
+    trust: bool,
+    warm: u32,
+    pre_udp: bool,
+    pre_tcp: bool,
+    udp: Option<Vec<Step>>,
+    tcp: Option<Vec<Step>>,
+}
+
+#[derive(Clone, Copy, PartialEq, Eq, Debug)]
+enum Strat {
+    User,
+    Rr,
+    Qs,
+}
+
+#[derive(Clone, Debug)]
+struct Case {
+    paced: bool,
+    strat: Strat,
+    ncr: usize,
+    t_ms: u64,
+    pre: usize,
+    k: usize,
+    /// creator cancelled at `.0` ms, a new caller joins at `.1` ms
+    cx: Option<(u64, u64)>,
+    srvs: Vec<Srv>,
+}
+
+#[derive(Clone, Debug)]
+struct Ex {
+    srv: usize,
+    tcp: bool,
+    start_us: u64,
+    end_us: Option<u64>,
+    rep: Rep,
+    lat_us: u64,
+}
+
+struct Env {
+    srvs: Vec<Srv>,
+    pos: Mutex<Vec<[usize; 2]>>,
+    log: Mutex<Vec<Ex>>,
+    new_conns: Mutex<Vec<(usize, bool)>>,
+    /// reaction lateness (paced): real offset − virtual now at exchange start
+    react_late_us: Mutex<u64>,
+}
+
+#[derive(Clone)]
+struct Prov {
+    env: Arc<Env>,
+}
+
+#[derive(Clone)]
+struct Handle {
+    env: Arc<Env>,
+    srv: usize,
+    tcp: bool,
+}
+
+fn ip_of(i: usize) -> IpAddr {
+    IpAddr::V4(Ipv4Addr::new(10, 0, 0, i as u8 + 1))
+}
+fn srv_of(ip: IpAddr) -> usize {
+    match ip {
+        IpAddr::V4(v) => v.octets()[3] as usize - 1,
+        _ => 0,
+    }
+}
+
+impl ConnectionProvider for Prov {
+    type Conn = Handle;
+    type FutureConn = future::Ready<Result<Handle, NetError>>;
+    type RuntimeProvider = SimRuntime;
+
+    fn new_connection(&self, ip: IpAddr, config: &ConnectionConfig, _cx: &PoolContext) -> Result<Self::FutureConn, NetError> {
+        let tcp = !matches!(config.protocol, ProtocolConfig::Udp);
+        let srv = srv_of(ip);
+        self.env.new_conns.lock().unwrap().push((srv, tcp));
+        Ok(future::ready(Ok(Handle { env: self.env.clone(), srv, tcp })))
+    }
+
+    fn runtime_provider(&self) -> &Self::RuntimeProvider {
+        &SimRuntime
+    }
+}
+
+fn warm_name() -> Name {
+    Name::from_str("warm.test.").unwrap()
+}
+fn q_name() -> Name {
+    Name::from_str("q.test.").unwrap()
+}
+
+fn io_err(kind: io::ErrorKind) -> NetError {
+    NetError::from(io::Error::new(kind, "scripted"))
+}
+
+fn reply(rep: Rep, srv: usize, tcp: bool, request: &DnsRequest) -> Result<DnsResponse, NetError> {
+    let query = request.queries.first().cloned().unwrap_or_else(Query::root);
+    let mut m = Message::query();
+    m.metadata.id = request.metadata.id;
+    m.add_query(query.clone());
+    let mut m = m.into_response();
+    match rep {
+        Rep::Ans => {
+            m.add_answer(Record::from_rdata(
+                query.name.clone(),
+                60,
+                RData::A(Ipv4Addr::new(10, if tcp { 2 } else { 1 }, srv as u8, 1).into()),
+            ));
+        }
+        Rep::Nx => m.metadata.response_code = ResponseCode::NXDomain,
+        Rep::Nd => {}
+        Rep::Sf => m.metadata.response_code = ResponseCode::ServFail,
+        Rep::Rf => m.metadata.response_code = ResponseCode::Refused,
+        Rep::Tc => m.metadata.truncation = true,
+        Rep::To => return Err(NetError::Timeout),
+        Rep::Io => return Err(io_err(io::ErrorKind::ConnectionRefused)),
+        Rep::Rst => return Err(io_err(io::ErrorKind::ConnectionReset)),
+        Rep::Busy => return Err(NetError::Busy),
+        Rep::Cm => return Err(NetError::QueryCaseMismatch),
+    }
+    DnsResponse::from_message(m).map_err(NetError::from)
+}
+
+/// counts a scripted request as in flight until it is answered or its future is dropped
+struct InFlight;
+impl Drop for InFlight {
+    fn drop(&mut self) {
+        let _ = SIM.try_with(|s| {
+            if let Ok(mut s) = s.try_borrow_mut() {
+                s.inflight = s.inflight.saturating_sub(1);
+            }
+        });
+    }
+}
+
+impl DnsHandle for Handle {
+    type Response = Pin<Box<dyn Stream<Item = Result<DnsResponse, NetError>> + Send>>;
+    type Runtime = SimRuntime;
+
+    fn send(&self, request: DnsRequest) -> Self::Response {
+        let is_warm = request.queries.first().map(|q| q.name == warm_name()).unwrap_or(false);
+        if is_warm {
+            // warm-up traffic (round-robin counter / SRTT ranks): an immediate transport error that
+            // consumes no script step and leaves no live connection behind
+            return Box::pin(once(future::ready(Err(io_err(io::ErrorKind::ConnectionRefused)))));
+        }
+        let (srv, tcp, env) = (self.srv, self.tcp, self.env.clone());
+        let step = {
+            let script = if tcp { env.srvs[srv].tcp.as_ref() } else { env.srvs[srv].udp.as_ref() };
+            let script = script.expect("exchange on an unconfigured protocol");
+            let mut pos = env.pos.lock().unwrap();
+            let p = &mut pos[srv][tcp as usize];
+            let st = script[(*p).min(script.len() - 1)];
+            *p += 1;
+            st
+        };
+        let start = sim_now();
+        {
+            let late = real_off().saturating_sub(start);
+            let mut r = env.react_late_us.lock().unwrap();
+            *r = (*r).max(late);
+        }
+        let idx = {
+            let mut log = env.log.lock().unwrap();
+            log.push(Ex { srv, tcp, start_us: start, end_us: None, rep: step.rep, lat_us: step.lat_ms * 1000 });
+            log.len() - 1
+        };
+        SIM.with(|s| s.borrow_mut().inflight += 1);
+        let guard = InFlight;
+        Box::pin(once(async move {
+            let _guard = guard;
+            VSleep::until(start + step.lat_ms * 1000).await;
+            env.log.lock().unwrap()[idx].end_us = Some(sim_now());
+            reply(step.rep, srv, tcp, &request)
+        }))
+    }
+}
+
+// ------------------------------------------------------------------------------------------------
+// case lines
+// ------------------------------------------------------------------------------------------------
+
+fn parse_script(s: &str) -> Option<Option<Vec<Step>>> {
+    if s == "-" {
+        return Some(None);
+    }
+    let mut v = vec![];
+    for st in s.split('.') {
+        let cut = st.find(|c: char| c.is_ascii_digit())?;
+        let rep = Rep::parse(&st[..cut])?;
+        let lat_ms: u64 = st[cut..].parse().ok()?;
+        if lat_ms > 100_000 {
+            return None;
+        }
+        v.push(Step { rep, lat_ms });
+    }
+    if v.is_empty() || v.len() > 8 {
+        return None;
+    }
+    Some(Some(v))
+}
+
+fn parse_srv(s: &str) -> Option<Srv> {
+    let p: Vec<&str> = s.split('/').collect();
+    if p.len() != 5 {
+        return None;
+    }
+    let trust = match p[0] {
+        "1" => true,
+        "0" => false,
+        _ => return None,
+    };
+    let warm: u32 = p[1].parse().ok()?;
+    let (pre_udp, pre_tcp) = match p[2] {
+        "-" => (false, false),
+        "u" => (true, false),
+        "t" => (false, true),
+        "ut" => (true, true),
+        _ => return None,
+    };
+    let udp = parse_script(p[3])?;
+    let tcp = parse_script(p[4])?;
+    if udp.is_none() && tcp.is_none() {
+        return None;
+    }
+    if (pre_udp && udp.is_none()) || (pre_tcp && tcp.is_none()) || warm > 8 {
+        return None;
+    }
+    Some(Srv { trust, warm, pre_udp, pre_tcp, udp, tcp })
+}
+
+/// `run <A|B> <user|rr|qs> <ncr> <T ms> <pre> <k> <-|c<ms>j<ms>> <srv>...`
+fn parse_case(t: &[&str]) -> Option<Case> {
+    if t.len() < 9 || t[0] != "run" {
+        return None;
+    }
+    let paced = match t[1] {
+        "A" => false,
+        "B" => true,
+        _ => return None,
+    };
+    let strat = match t[2] {
+        "user" => Strat::User,
+        "rr" => Strat::Rr,
+        "qs" => Strat::Qs,
+        _ => return None,
+    };
+    let ncr: usize = t[3].parse().ok()?;
+    let t_ms: u64 = t[4].parse().ok()?;
+    let pre: usize = t[5].parse().ok()?;
+    let k: usize = t[6].parse().ok()?;
+    let cx = if t[7] == "-" {
+        None
+    } else {
+        let s = t[7].strip_prefix('c')?;
+        let (a, b) = s.split_once('j')?;
+        Some((a.parse().ok()?, b.parse().ok()?))
+    };
+    let srvs: Option<Vec<Srv>> = t[8..].iter().map(|s| parse_srv(s)).collect();
+    let srvs = srvs?;
+    if srvs.is_empty() || srvs.len() > 8 || k == 0 || k > 8 || ncr > 8 || pre > 16 || t_ms == 0 {
+        return None;
+    }
+    let any_pre = srvs.iter().any(|s| s.pre_udp || s.pre_tcp);
+    let any_warm = srvs.iter().any(|s| s.warm > 0);
+    // warm-up traffic kills the connection it used: pre-established connections are only scripted
+    // without warm-up (keeps the model's connection state exact)
+    if any_pre && (any_warm || pre > 0) {
+        return None;
+    }
+    if any_warm && strat != Strat::Qs {
+        return None;
+    }
+    if pre > 0 && strat != Strat::Rr {
+        return None;
+    }
+    if let Some((c, j)) = cx {
+        // restricted scenario (see Model/Pool.lean `runCancel`): stateless scripts, plain order
+        if j <= c || strat != Strat::User || any_pre {
+            return None;
+        }
+        let ok = |s: &Option<Vec<Step>>, tcp: bool| {
+            s.as_ref().map(|v| v.len() == 1 && v[0].rep != Rep::Rst && !(tcp && matches!(v[0].rep, Rep::Tc | Rep::Cm))).unwrap_or(true)
+        };
+        if !srvs.iter().all(|s| (s.udp.is_none() || s.tcp.is_none()) && ok(&s.udp, false) && ok(&s.tcp, true)) {
+            return None;
+        }
+    }
+    Some(Case { paced, strat, ncr, t_ms, pre, k, cx, srvs })
+}
+
+fn script_tok(s: &Option<Vec<Step>>) -> String {
+    match s {
+        None => "-".into(),
+        Some(v) => v.iter().map(|st| format!("{}{}", st.rep.tok(), st.lat_ms)).collect::<Vec<_>>().join("."),
+    }
+}
+
+fn srv_tok(s: &Srv) -> String {
+    let pre = match (s.pre_udp, s.pre_tcp) {
+        (false, false) => "-",
+        (true, false) => "u",
+        (false, true) => "t",
+        (true, true) => "ut",
+    };
+    format!("{}/{}/{}/{}/{}", b(s.trust), s.warm, pre, script_tok(&s.udp), script_tok(&s.tcp))
+}
+
+fn case_line(c: &Case) -> String {
+    let strat = match c.strat {
+        Strat::User => "user",
+        Strat::Rr => "rr",
+        Strat::Qs => "qs",
+    };
+    let cx = match c.cx {
+        None => "-".to_string(),
+        Some((a, bb)) => format!("c{a}j{bb}"),
+    };
+    let mut s = format!("run {} {} {} {} {} {} {}", if c.paced { "B" } else { "A" }, strat, c.ncr, c.t_ms, c.pre, c.k, cx);
+    for sv in &c.srvs {
+        s.push(' ');
+        s.push_str(&srv_tok(sv));
+    }
+    s
+}
+
+// ------------------------------------------------------------------------------------------------
+// running one case on the real pool
+// ------------------------------------------------------------------------------------------------
+
+fn classify(r: &Result<DnsResponse, NetError>) -> String {
+    match r {
+        Ok(resp) => {
+            for rec in &resp.answers {
+                if let RData::A(a) = &rec.data {
+                    let o = a.0.octets();
+                    return format!("ans:s{}{}", o[2], if o[1] == 2 { "t" } else { "u" });
+                }
+            }
+            if resp.truncation { "ok:tc".into() } else { "ok:empty".into() }
+        }
+        Err(e) => match e {
+            NetError::Timeout => "err:timeout".into(),
+            NetError::Busy => "err:busy".into(),
+            NetError::NoConnections => "err:noconn".into(),
+            NetError::Io(_) => "err:io".into(),
+            NetError::Msg(_) | NetError::Message(_) => "err:msg".into(),
+            NetError::QueryCaseMismatch => "err:cm".into(),
+            NetError::Dns(DnsError::NoRecordsFound(NoRecords { response_code, .. })) => match response_code {
+                ResponseCode::NXDomain => "err:nx".into(),
+                ResponseCode::NoError => "err:nodata".into(),
+                _ => "err:norecords".into(),
+            },
+            NetError::Dns(DnsError::ResponseCode(_)) => "err:rcode".into(),
+            _ => "err:other".into(),
+        },
+    }
+}
+
+struct RunOut {
+    /// per caller: (class, completion µs virtual, completion µs real offset)
+    callers: Vec<(String, u64, u64)>,
+    /// cancel scenario: creator's result if it finished before the cancellation; joiner's result
+    creator: Option<Option<(String, u64)>>,
+    joiner: Option<(String, u64)>,
+    log: Vec<Ex>,
+    delays: Vec<(u64, u64)>,
+    cuts: Vec<(u64, u64)>,
+    max_late_us: u64,
+    new_conns: usize,
+}
+
+// ------------------------------------------------------------------------------------------------
+// consecutive lookups on one pool, optionally through the retry layer (`options.attempts`)
+// ------------------------------------------------------------------------------------------------
+
+/// `seq <user|rr> <ncr> <T ms> <attempts|-> <m> <gap ms> <srv>...` — virtual time only
+fn exec_seq(line: &str, t: &[&str], rec: &mut Recorder) {
+    let parsed = (|| {
+        if t.len() < 8 {
+            return None;
+        }
+        let strat = match t[1] {
+            "user" => Strat::User,
+            "rr" => Strat::Rr,
+            _ => return None,
+        };
+        let ncr: usize = t[2].parse().ok()?;
+        let t_ms: u64 = t[3].parse().ok()?;
+        let att: Option<usize> = if t[4] == "-" { None } else { Some(t[4].parse().ok()?) };
+        let m: usize = t[5].parse().ok()?;
+        let gap: u64 = t[6].parse().ok()?;
+        let srvs: Option<Vec<Srv>> = t[7..].iter().map(|s| parse_srv(s)).collect();
+        let srvs = srvs?;
+        if srvs.is_empty() || srvs.len() > 8 || ncr > 8 || t_ms == 0 || m == 0 || m > 8 || gap > 1000 {
+            return None;
+        }
+        if att.unwrap_or(0) > 4 || srvs.iter().any(|s| s.warm > 0) {
+            return None;
+        }
+        Some((Case { paced: false, strat, ncr, t_ms, pre: 0, k: 1, cx: None, srvs }, att, m, gap))
+    })();
+    let Some((c, att, m, gap)) = parsed else {
+        rec.case(line.to_string(), "bad-op".into());
+        rec.stat("bad-op");
+        return;
+    };
+    rec.stat("seq_consecutive_lookups");
+    rec.stat(&format!("seq_attempts_{}", att.map(|a| a.to_string()).unwrap_or_else(|| "none".into())));
+    let r = catch(|| -> Result<(Vec<(String, u64)>, Vec<Ex>), String> {
+        let (env, pool) = build_pool(&c)?;
+        let req = DnsRequest::from_query(Query::new(q_name(), RecordType::A), DnsRequestOptions::default());
+        let fut = async {
+            let mut out = vec![];
+            for _ in 0..m {
+                let r = match att {
+                    None => pool.send(req.clone()).first_answer().await,
+                    Some(a) => hickory_net::xfer::RetryDnsHandle::new(pool.clone(), a).send(req.clone()).first_answer().await,
+                };
+                out.push((classify(&r), sim_now()));
+                VSleep::after(gap * 1000).await;
+            }
+            out
+        };
+        let out = sim_run(fut, false, 20_000).map_err(|e| format!("{e:?}"))?;
+        let log = env.log.lock().unwrap().clone();
+        Ok((out, log))
+    });
+    match r {
+        Err(p) => {
+            let idx = rec.case(line.to_string(), format!("panic {}", p.replace(char::is_whitespace, "_")));
+            rec.fail(idx, format!("the pool panicked: {p}"), "");
+        }
+        Ok(Err(e)) => {
+            let idx = rec.case(line.to_string(), format!("hang {}", e.replace(char::is_whitespace, "_")));
+            rec.fail(idx, format!("a lookup did not complete with an answer or an error: {e}"), "");
+        }
+        Ok(Ok((out, log))) => {
+            let txt = format!(
+                "{} log={}",
+                out.iter().map(|(r, v)| format!("{}@{}", r, v / 1000)).collect::<Vec<_>>().join(";"),
+                log_tok(&log, true)
+            );
+            // batches of several servers: a zero-latency reply or a reconnect on a reused connection
+            // makes the outcome depend on poll order inside one instant (see `not_comparable`)
+            let batch1 = c.ncr.max(1) == 1 || c.srvs.len() == 1;
+            let steps = || c.srvs.iter().flat_map(all_steps);
+            let cmp = batch1 || !steps().any(|st| st.lat_ms == 0 || st.rep == Rep::Rst);
+            if !cmp {
+                rec.impl_only += 1;
+                rec.stat("impl_only_seq_poll_order_dependent");
+            }
+            let idx = rec.case(line.to_string(), if cmp { txt } else { "~".into() });
+            for e in &log {
+                rec.stat(&format!("exchange_{}_{}", if e.tcp { "tcp" } else { "udp" }, e.rep.tok()));
+            }
+            if log.len() > 1 {
+                rec.nontrivial(idx);
+            }
+            for (r, _) in &out {
+                if !(r.starts_with("ans:") || r.starts_with("err:")) {
+                    rec.fail(idx, format!("lookup completed with neither an answer nor an error: {r}"), "");
+                }
+            }
+        }
+    }
+}
+
+fn build_pool(c: &Case) -> Result<(Arc<Env>, NameServerPool<Prov>), String> {
+    let env = Arc::new(Env {
+        srvs: c.srvs.clone(),
+        pos: Mutex::new(vec![[0, 0]; c.srvs.len()]),
+        log: Mutex::new(vec![]),
+        new_conns: Mutex::new(vec![]),
+        react_late_us: Mutex::new(0),
+    });
+    let prov = Prov { env: env.clone() };
+    let mut opts = ResolverOpts::default();
+    opts.timeout = Duration::from_millis(c.t_ms);
+    opts.num_concurrent_reqs = c.ncr;
+    opts.server_ordering_strategy = match c.strat {
+        Strat::User => ServerOrderingStrategy::UserProvidedOrder,
+        Strat::Rr => ServerOrderingStrategy::RoundRobin,
+        Strat::Qs => ServerOrderingStrategy::QueryStatistics,
+    };
+    let servers: Vec<Arc<NameServer<Prov>>> = c
+        .srvs
+        .iter()
+        .enumerate()
+        .map(|(i, s)| {
+            let mut conns = vec![];
+            if s.udp.is_some() {
+                conns.push(ConnectionConfig::udp());
+            }
+            if s.tcp.is_some() {
+                conns.push(ConnectionConfig::tcp());
+            }
+            let mut pre = vec![];
+            if s.pre_udp {
+                pre.push((hickory_net::xfer::Protocol::Udp, Handle { env: env.clone(), srv: i, tcp: false }));
+            }
+            if s.pre_tcp {
+                pre.push((hickory_net::xfer::Protocol::Tcp, Handle { env: env.clone(), srv: i, tcp: true }));
+            }
+            let cfg = NameServerConfig::new(ip_of(i), s.trust, conns);
+            Arc::new(NameServer::new(pre, cfg, &opts, prov.clone()))
+        })
+        .collect();
+    let tls = TlsConfig::new().map_err(|e| format!("tls {e}"))?;
+    Ok((env, NameServerPool::from_nameservers(servers, Arc::new(PoolContext::new(opts, tls)))))
+}
+
+fn run_case(c: &Case) -> Result<RunOut, String> {
+    let env = Arc::new(Env {
+        srvs: c.srvs.clone(),
+        pos: Mutex::new(vec![[0, 0]; c.srvs.len()]),
+        log: Mutex::new(vec![]),
+        new_conns: Mutex::new(vec![]),
+        react_late_us: Mutex::new(0),
+    });
+    let prov = Prov { env: env.clone() };
+    let mut opts = ResolverOpts::default();
+    opts.timeout = Duration::from_millis(c.t_ms);
+    opts.num_concurrent_reqs = c.ncr;
+    opts.server_ordering_strategy = match c.strat {
+        Strat::User => ServerOrderingStrategy::UserProvidedOrder,
+        Strat::Rr => ServerOrderingStrategy::RoundRobin,
+        Strat::Qs => ServerOrderingStrategy::QueryStatistics,
+    };
+    let servers: Vec<Arc<NameServer<Prov>>> = c
+        .srvs
+        .iter()
+        .enumerate()
+        .map(|(i, s)| {
+            let mut conns = vec![];
+            if s.udp.is_some() {
+                conns.push(ConnectionConfig::udp());
+            }
+            if s.tcp.is_some() {
+                conns.push(ConnectionConfig::tcp());
+            }
+            let mut pre = vec![];
+            if s.pre_udp {
+                pre.push((hickory_net::xfer::Protocol::Udp, Handle { env: env.clone(), srv: i, tcp: false }));
+            }
+            if s.pre_tcp {
+                pre.push((hickory_net::xfer::Protocol::Tcp, Handle { env: env.clone(), srv: i, tcp: true }));
+            }
+            let cfg = NameServerConfig::new(ip_of(i), s.trust, conns);
+            Arc::new(NameServer::new(pre, cfg, &opts, prov.clone()))
+        })
+        .collect();
+    let tls = || TlsConfig::new().map_err(|e| format!("tls {e}"));
+    let pool = NameServerPool::from_nameservers(servers.clone(), Arc::new(PoolContext::new(opts.clone(), tls()?)));
+    let warm_req = || DnsRequest::from_query(Query::new(warm_name(), RecordType::A), DnsRequestOptions::default());
+    let req = DnsRequest::from_query(Query::new(q_name(), RecordType::A), DnsRequestOptions::default());
+
+    // warm-up (not part of the measured run; all replies are immediate)
+    let mut warm_pools = vec![];
+    for (i, s) in c.srvs.iter().enumerate() {
+        if s.warm > 0 {
+            let mut o = opts.clone();
+            o.server_ordering_strategy = ServerOrderingStrategy::UserProvidedOrder;
+            warm_pools.push((
+                s.warm,
+                NameServerPool::from_nameservers(vec![servers[i].clone()], Arc::new(PoolContext::new(o, tls()?))),
+            ));
+        }
+    }
+    let warm = async {
+        for (w, p) in &warm_pools {
+            for _ in 0..*w {
+                let _ = p.send(warm_req()).first_answer().await;
+            }
+        }
+        for _ in 0..c.pre {
+            let _ = pool.send(warm_req()).first_answer().await;
+        }
+    };
+    sim_run(warm, false, 1000).map_err(|e| format!("warm-up {e:?}"))?;
+    env.new_conns.lock().unwrap().clear();
+
+    let max_fires = 4000;
+    let k = c.k;
+    let one = |p: &NameServerPool<Prov>| {
+        let f = p.send(req.clone()).first_answer();
+        async move {
+            let r = f.await;
+            (classify(&r), sim_now(), real_off())
+        }
+    };
+    let mut out = RunOut { callers: vec![], creator: None, joiner: None, log: vec![], delays: vec![], cuts: vec![], max_late_us: 0, new_conns: 0 };
+    match c.cx {
+        None => {
+            let futs: Vec<_> = (0..k).map(|_| one(&pool)).collect();
+            let r = sim_run(future::join_all(futs), c.paced, max_fires).map_err(|e| format!("{e:?}"))?;
+            out.callers = r;
+        }
+        Some((tc, tj)) => {
+            let c0 = Box::pin(one(&pool));
+            let waiters: Vec<_> = (1..k).map(|_| one(&pool)).collect();
+            let pool2 = pool.clone();
+            let req2 = req.clone();
+            let branch0 = async move {
+                let creator = match future::select(c0, VSleep::until(tc * 1000 + 500)).await {
+                    Either::Left((r, _)) => Some((r.0, r.1)),
+                    Either::Right((_, c0)) => {
+                        drop(c0);
+                        None
+                    }
+                };
+                VSleep::until(tj * 1000 + 500).await;
+                let r = pool2.send(req2).first_answer().await;
+                (creator, (classify(&r), sim_now()))
+            };
+            let (b0, ws) =
+                sim_run(future::join(branch0, future::join_all(waiters)), c.paced, max_fires).map_err(|e| format!("{e:?}"))?;
+            out.creator = Some(b0.0);
+            out.joiner = Some(b0.1);
+            out.callers = ws;
+        }
+    }
+    out.log = env.log.lock().unwrap().clone();
+    out.new_conns = env.new_conns.lock().unwrap().len();
+    let react = *env.react_late_us.lock().unwrap();
+    SIM.with(|s| {
+        let s = s.borrow();
+        out.delays = s.delays.clone();
+        out.cuts = s.cuts.clone();
+        out.max_late_us = s.max_late_us.max(react);
+    });
+    Ok(out)
+}
+
+fn log_tok(log: &[Ex], times: bool) -> String {
+    if log.is_empty() {
+        return "-".into();
+    }
+    let mut log: Vec<&Ex> = log.iter().collect();
+    log.sort_by_key(|e| (e.start_us, e.srv, e.tcp));
+    log.iter()
+        .map(|e| {
+            if times {
+                format!("s{}{}@{}", e.srv, if e.tcp { "t" } else { "u" }, e.start_us / 1000)
+            } else {
+                format!("s{}{}", e.srv, if e.tcp { "t" } else { "u" })
+            }
+        })
+        .collect::<Vec<_>>()
+        .join(",")
+}
+
+/// which lines can be compared with the model at all (independent of the implementation's
+/// behaviour); `Some(reason)` = implementation-vs-oracle only
+fn not_comparable(c: &Case) -> Option<&'static str> {
+    if c.strat == Strat::Qs && c.srvs.len() > 1 {
+        // initial SRTTs are random (1..32 µs): the order is only determined when every server has a
+        // distinct number of recorded failures
+        let mut w: Vec<u32> = c.srvs.iter().map(|s| s.warm).collect();
+        w.sort();
+        w.dedup();
+        if w.len() != c.srvs.len() {
+            return Some("impl_only_random_srtt_order");
+        }
+    }
+    let batch1 = c.ncr.max(1) == 1 || c.srvs.len() == 1;
+    let steps = || c.srvs.iter().flat_map(all_steps);
+    // a zero-latency reply completes inside the poll that started it: the other members of the batch
+    // have not been started yet, and a second caller is not concurrent with a lookup that is already over
+    if steps().any(|st| st.lat_ms == 0) && !(batch1 && c.k == 1) {
+        return Some("impl_only_zero_latency_in_batch_or_several_callers");
+    }
+    // reconnect-and-retry inside a batch of several servers: start of the retry vs replies of the
+    // others is decided by timer order on ties
+    let reuse_possible = c.srvs.iter().any(|s| s.pre_udp || s.pre_tcp || (s.tcp.is_some() && all_steps(s).any(|st| matches!(st.rep, Rep::Tc | Rep::Cm))));
+    if steps().any(|st| st.rep == Rep::Rst) && reuse_possible && !batch1 {
+        return Some("impl_only_reset_on_reused_connection_in_batch");
+    }
+    None
+}
+
+fn comparable(c: &Case) -> bool {
+    not_comparable(c).is_none()
+}
+
+/// paced runs: no decision point of the pool within `M_US` of the deadline or of another reply
+fn robust(c: &Case, o: &RunOut) -> bool {
+    let t = c.t_ms * 1000;
+    let near = |x: u64| x.abs_diff(t) < M_US;
+    let mut pts: Vec<u64> = vec![];
+    for e in &o.log {
+        pts.push(e.start_us);
+        if let Some(x) = e.end_us {
+            pts.push(x);
+        }
+        // a request abandoned in flight: whether its reply or the deadline timer wins is decided by its
+        // nominal end
+        if e.end_us.is_none() {
+            pts.push(e.start_us + e.lat_us);
+        }
+    }
+    let mut backoff = 20_000u64;
+    for (start, d) in &o.delays {
+        if *d == backoff {
+            pts.push(start + d);
+        } else if near(start + backoff) {
+            // capped by the remaining budget: the capping decision itself must be clear
+            return false;
+        }
+        pts.push(*start);
+        backoff *= 2;
+    }
+    for p in pts {
+        if near(p) {
+            return false;
+        }
+    }
+    for (r, v, _) in &o.callers {
+        // a completion by the deadline (check or timer) is at the deadline by construction
+        if near(*v) && !(r == "err:timeout" && *v >= t) {
+            return false;
+        }
+    }
+    // replies racing each other: two exchanges in flight at the same time must not end close together
+    for (i, a) in o.log.iter().enumerate() {
+        for bb in &o.log[i + 1..] {
+            if let (Some(ea), Some(eb)) = (a.end_us, bb.end_us) {
+                let overlap = a.start_us <= eb && bb.start_us <= ea;
+                if overlap && ea.abs_diff(eb) < M_US {
+                    return false;
+                }
+            }
+        }
+    }
+    true
+}
+
+pub fn exec(line: &str, rec: &mut Recorder) {
+    let t: Vec<&str> = line.split_whitespace().collect();
+    if t.first() == Some(&"real") {
+        exec_real(line, &t, rec);
+        return;
+    }
+    if t.first() == Some(&"seq") {
+        exec_seq(line, &t, rec);
+        return;
+    }
+    let Some(c) = parse_case(&t) else {
+        rec.case(line.to_string(), "bad-op".into());
+        rec.stat("bad-op");
+        return;
+    };
+    let r = catch(|| {
+        let mut last = None;
+        // a paced run whose events fired late is not a run of the scripted case: repeat it
+        for _attempt in 0..(if c.paced { 3 } else { 1 }) {
+            let o = run_case(&c);
+            let ok = match &o {
+                Ok(o) => !c.paced || o.max_late_us <= J_US,
+                Err(_) => true,
+            };
+            last = Some(o);
+            if ok {
+                break;
+            }
+        }
+        last.unwrap()
+    });
+    finish_case(line, &c, r, rec);
+}
+
+fn finish_case(line: &str, c: &Case, r: Result<Result<RunOut, String>, String>, rec: &mut Recorder) {
+    rec.stat(if c.paced { "mode_B_paced_real_clock" } else { "mode_A_virtual" });
+    rec.stat(&format!("servers_{}", c.srvs.len()));
+    rec.stat(&format!("strategy_{:?}", c.strat));
+    rec.stat(&format!("ncr_{}", c.ncr));
+    rec.stat(&format!("callers_{}", c.k));
+    let o = match r {
+        Err(p) => {
+            let idx = rec.case(line.to_string(), format!("panic {}", p.replace(char::is_whitespace, "_")));
+            rec.fail(idx, format!("the pool panicked: {p}"), "");
+            return;
+        }
+        Ok(Err(e)) => {
+            let idx = rec.case(line.to_string(), format!("hang {}", e.replace(char::is_whitespace, "_")));
+            rec.fail(idx, format!("the lookup did not complete with an answer or an error: {e}"), "");
+            return;
+        }
+        Ok(Ok(o)) => o,
+    };
+    // ---- canonical output
+    let t_us = c.t_ms * 1000;
+    let first = o.callers.first().cloned().or_else(|| o.joiner.clone().map(|(r, v)| (r, v, v))).unwrap();
+    let all_same = o.callers.iter().all(|x| x.0 == first.0 && x.1 == first.1);
+    let mut out = String::new();
+    let valid = !c.paced || o.max_late_us <= J_US;
+    if c.paced {
+        let late = first.1 > t_us + M_US;
+        out.push_str(&format!("{} late={} log={}", first.0, b(late), log_tok(&o.log, false)));
+    } else {
+        out.push_str(&format!("{} t={} log={}", first.0, first.1 / 1000, log_tok(&o.log, true)));
+    }
+    out.push_str(&format!(" same={}", b(all_same)));
+    if let (Some(cr), Some(j)) = (&o.creator, &o.joiner) {
+        match cr {
+            Some((r, v)) => out.push_str(&format!(" c0={}@{}", r, v / 1000)),
+            None => out.push_str(" c0=cancelled"),
+        }
+        out.push_str(&format!(" j={}@{}", j.0, j.1 / 1000));
+    }
+    let cmp = comparable(c) && valid && (!c.paced || robust(c, &o));
+    if !cmp {
+        rec.impl_only += 1;
+        rec.stat(match not_comparable(c) {
+            Some(r) => r,
+            None if !valid => "impl_only_paced_run_late",
+            None => "impl_only_paced_not_robust",
+        });
+    }
+    let idx = rec.case(line.to_string(), if cmp { out.clone() } else { "~".into() });
+    // ---- statistics
+    rec.stat(&format!("result_{}", first.0.split(':').take(2).collect::<Vec<_>>().join("_").trim_end_matches(|ch: char| ch.is_ascii_digit() || ch == 's' || ch == 'u' || ch == 't')));
+    for e in &o.log {
+        rec.stat(&format!("exchange_{}_{}", if e.tcp { "tcp" } else { "udp" }, e.rep.tok()));
+    }
+    if !o.delays.is_empty() {
+        rec.stat(&format!("backoff_sleeps_{}", o.delays.len()));
+    }
+    if o.log.iter().any(|e| e.tcp) && o.log.iter().any(|e| !e.tcp) {
+        rec.stat("udp_and_tcp_used");
+    }
+    if c.cx.is_some() {
+        rec.stat("creator_cancel_scenario");
+    }
+    // non-trivial: more than one exchange, or a concurrent caller, or a back-off
+    if o.log.len() > 1 || c.k > 1 || !o.delays.is_empty() {
+        rec.nontrivial(idx);
+    }
+    oracle(c, &o, valid, idx, rec);
+}
+
+// ------------------------------------------------------------------------------------------------
+// replay of the deadline clause on the unmodified stack: real UDP sockets on loopback, the real
+// `TokioRuntimeProvider`, `UdpClientStream` with its own `options.timeout`
+// ------------------------------------------------------------------------------------------------
+
+/// `real <T ms> <d ms>`: server 1 (127.0.0.1, not trusted for negative answers) answers NXDOMAIN after
+/// `d` ms, server 2 (127.0.0.2) receives the query and never answers.  No model side.
+fn exec_real(line: &str, t: &[&str], rec: &mut Recorder) {
+    let (Some(t_ms), Some(d_ms)) = (t.get(1).and_then(|x| x.parse::<u64>().ok()), t.get(2).and_then(|x| x.parse::<u64>().ok())) else {
+        rec.case(line.to_string(), "bad-op".into());
+        return;
+    };
+    if t.len() != 3 || t_ms == 0 || t_ms > 5000 || d_ms > 5000 {
+        rec.case(line.to_string(), "bad-op".into());
+        return;
+    }
+    rec.impl_only += 1;
+    rec.stat("mode_R_real_sockets");
+    let r = catch(|| real_run(t_ms, d_ms));
+    let idx = rec.case(line.to_string(), "~".into());
+    match r {
+        Ok(Ok((class, elapsed_ms, s2_got_query))) => {
+            rec.stat(&format!("real_result_{}", class.replace(':', "_")));
+            eprintln!("c18: real sockets T={t_ms} d={d_ms}: {class} after {elapsed_ms} ms");
+            rec.nontrivial(idx);
+            if !(class.starts_with("ans:") || class.starts_with("err:")) {
+                rec.fail(idx, format!("lookup completed with neither an answer nor an error: {class}"), "");
+            }
+            // (real sockets, real scheduler: a wider tolerance than in paced mode)
+            if elapsed_ms > t_ms + 100 {
+                let _ = s2_got_query;
+                let class_f = "";
+                rec.fail(
+                    idx,
+                    format!(
+                        "real sockets: lookup completed {elapsed_ms} ms after it started (result {class}), configured timeout {t_ms} ms: server 1 answered an untrusted NXDOMAIN after {d_ms} ms, server 2 was then queried and waited for until its own {t_ms} ms timeout"
+                    ),
+                    class_f,
+                );
+            }
+        }
+        Ok(Err(e)) => {
+            // no loopback sockets in this sandbox: nothing was observed
+            rec.stat("real_sockets_unavailable");
+            let _ = e;
+        }
+        Err(p) => rec.fail(idx, format!("the pool panicked: {p}"), ""),
+    }
+}
+
+fn real_run(t_ms: u64, d_ms: u64) -> Result<(String, u64, bool), String> {
+    let rt = tokio::runtime::Builder::new_current_thread().enable_all().build().map_err(|e| e.to_string())?;
+    rt.block_on(async move {
+        let s1 = tokio::net::UdpSocket::bind("127.0.0.1:0").await.map_err(|e| e.to_string())?;
+        let s2 = tokio::net::UdpSocket::bind("127.0.0.2:0").await.map_err(|e| e.to_string())?;
+        let (p1, p2) = (s1.local_addr().map_err(|e| e.to_string())?.port(), s2.local_addr().map_err(|e| e.to_string())?.port());
+        let got2 = Arc::new(AtomicBool::new(false));
+        let g2 = got2.clone();
+        tokio::spawn(async move {
+            let mut buf = [0u8; 1500];
+            while let Ok((_n, _from)) = s2.recv_from(&mut buf).await {
+                g2.store(true, AO::SeqCst);
+            }
+        });
+        tokio::spawn(async move {
+            let mut buf = [0u8; 1500];
+            while let Ok((n, from)) = s1.recv_from(&mut buf).await {
+                let Ok(q) = Message::from_vec(&buf[..n]) else { continue };
+                let mut m = Message::query();
+                m.metadata.id = q.metadata.id;
+                if let Some(qq) = q.queries.first() {
+                    m.add_query(qq.clone());
+                }
+                let mut m = m.into_response();
+                m.metadata.response_code = ResponseCode::NXDomain;
+                tokio::time::sleep(Duration::from_millis(d_ms)).await;
+                if let Ok(bytes) = m.to_vec() {
+                    let _ = s1.send_to(&bytes, from).await;
+                }
+            }
+        });
+        let mut opts = ResolverOpts::default();
+        opts.timeout = Duration::from_millis(t_ms);
+        opts.num_concurrent_reqs = 1;
+        opts.server_ordering_strategy = ServerOrderingStrategy::UserProvidedOrder;
+        let mut c1 = ConnectionConfig::udp();
+        c1.port = p1;
+        let mut c2 = ConnectionConfig::udp();
+        c2.port = p2;
+        let servers = vec![
+            NameServerConfig::new(IpAddr::V4(Ipv4Addr::new(127, 0, 0, 1)), false, vec![c1]),
+            NameServerConfig::new(IpAddr::V4(Ipv4Addr::new(127, 0, 0, 2)), true, vec![c2]),
+        ];
+        let cx = Arc::new(PoolContext::new(opts, TlsConfig::new().map_err(|e| e.to_string())?));
+        let pool = NameServerPool::from_config(servers, cx, TokioRuntimeProvider::new());
+        let req = DnsRequest::from_query(Query::new(q_name(), RecordType::A), DnsRequestOptions::default());
+        let start = Instant::now();
+        let r = pool.send(req).first_answer().await;
+        let elapsed = start.elapsed().as_millis() as u64;
+        Ok((classify(&r), elapsed, got2.load(AO::SeqCst)))
+    })
+}
+
+// ------------------------------------------------------------------------------------------------
+// the property's oracle (independent of the model)
+// ------------------------------------------------------------------------------------------------
+
+/// first step of the script the pool would use first for this server
+#[allow(dead_code)]
+fn first_rep(s: &Srv) -> Rep {
+    match (&s.udp, &s.tcp) {
+        (Some(u), _) if !s.pre_tcp || s.pre_udp => u[0].rep,
+        (_, Some(t)) => t[0].rep,
+        (Some(u), None) => u[0].rep,
+        (None, None) => unreachable!(),
+    }
+}
+
+fn all_steps(s: &Srv) -> impl Iterator<Item = &Step> {
+    s.udp.iter().flatten().chain(s.tcp.iter().flatten())
+}
+
+fn oracle(c: &Case, o: &RunOut, valid: bool, idx: usize, rec: &mut Recorder) {
+    let t_us = c.t_ms * 1000;
+    let res: Vec<&(String, u64, u64)> = o.callers.iter().collect();
+
+    // (1) every caller completes with an answer or an error — no other outcome class exists; a hang
+    //     or a panic was reported by the caller of this function.
+    for r in &res {
+        if !(r.0.starts_with("ans:") || r.0.starts_with("err:")) {
+            rec.fail(idx, format!("lookup completed with neither an answer nor an error: {}", r.0), "");
+        }
+    }
+
+    // (2) deadline: completion no later than the configured timeout (real clock in paced mode; in
+    //     virtual mode the timeout is far away by construction, so this only guards the harness).
+    for r in &res {
+        let (virt, real) = (r.1, r.2);
+        if c.paced {
+            if valid && real > t_us + TOL_US && virt > t_us + TOL_US {
+                // (the overrun by a whole server round, finding C18-F1, was repaired by 92faead: any
+                //  overrun is a violation again)
+                rec.fail(
+                    idx,
+                    format!(
+                        "lookup completed {} ms after it started (result {}), configured timeout {} ms",
+                        real / 1000,
+                        r.0,
+                        c.t_ms
+                    ),
+                    "",
+                );
+                break;
+            }
+        } else if virt > t_us {
+            rec.fail(idx, format!("virtual completion {} ms beyond the timeout {} ms", virt / 1000, c.t_ms), "");
+            break;
+        }
+    }
+
+    // (3) concurrent identical queries share one upstream exchange and all receive its result
+    if c.cx.is_none() && c.k > 1 && comparable(c) && o.callers[0].1 > 0 {
+        if !o.callers.iter().all(|x| x.0 == o.callers[0].0) {
+            rec.fail(idx, "concurrent identical queries received different results", "");
+        }
+        if !c.paced {
+            // (callers that arrive while the first lookup is in flight: completion time > 0)
+            let mut c1 = c.clone();
+            c1.k = 1;
+            match catch(|| run_case(&c1)) {
+                Ok(Ok(o1)) => {
+                    if log_tok(&o1.log, true) != log_tok(&o.log, true) {
+                        rec.fail(
+                            idx,
+                            format!(
+                                "{} concurrent identical queries caused upstream exchanges [{}], a single query causes [{}]",
+                                c.k,
+                                log_tok(&o.log, true),
+                                log_tok(&o1.log, true)
+                            ),
+                            "",
+                        );
+                    }
+                }
+                _ => rec.fail(idx, "reference run with one caller failed", ""),
+            }
+        }
+    }
+    if let (Some(_), Some(j)) = (&o.creator, &o.joiner) {
+        // creator cancelled while waiters are still being served, then an identical query arrives
+        // while the first exchange is still in flight: it must share that exchange
+        let (tc, tj) = c.cx.unwrap();
+        let inflight_at_join = o.callers.iter().any(|w| w.1 > tj * 1000);
+        let creator_cancelled = matches!(o.creator, Some(None));
+        if creator_cancelled && inflight_at_join {
+            let started_after_join = o.log.iter().filter(|e| e.start_us >= tj * 1000).count();
+            let w = &o.callers[0];
+            // sharing means: the joiner completes together with the waiters
+            if j.1 != w.1 || j.0 != w.0 {
+                rec.fail(
+                    idx,
+                    format!(
+                        "identical query arriving at {} ms while the exchange started at 0 ms is still in flight (creator cancelled at {} ms, waiters served at {} ms) did not share it: it completed at {} ms with {} after {} further upstream exchanges",
+                        tj,
+                        tc,
+                        w.1 / 1000,
+                        j.1 / 1000,
+                        j.0,
+                        started_after_join
+                    ),
+                    "dedup-split-after-creator-cancel",
+                );
+            }
+        }
+    }
+
+    if c.cx.is_some() {
+        return;
+    }
+    // the remaining clauses speak about ONE lookup; with zero-latency replies several callers are
+    // served by several consecutive lookups whose exchanges are merged in the log
+    if c.k > 1 && c.srvs.iter().flat_map(all_steps).any(|st| st.lat_ms == 0) {
+        return;
+    }
+    let r0 = &o.callers[0];
+
+    // (4) a truncated UDP reply is retried over TCP (same server), unless the lookup ended first
+    // (with a zero-latency reply the members of a batch are not all started before the first reply is
+    //  handled, so "the lookup ended in the same round" cannot be read off the log: clause skipped)
+    let zero_lat = c.srvs.iter().flat_map(all_steps).any(|st| st.lat_ms == 0);
+    for (i, e) in o.log.iter().enumerate() {
+        if zero_lat {
+            break;
+        }
+        if e.rep == Rep::Tc && !e.tcp && c.srvs[e.srv].tcp.is_some() {
+            let Some(end) = e.end_us else { continue };
+            let retried = o.log[i + 1..].iter().any(|x| x.srv == e.srv && x.tcp && x.start_us >= end);
+            // the lookup may end inside the same round: with the deadline, or with a reply that ends a
+            // lookup by design (answer, trusted NXDOMAIN, NODATA, SERVFAIL, REFUSED) from a request that
+            // was already in flight when the truncated reply arrived
+            let terminal = |x: &Ex| matches!(x.rep, Rep::Ans | Rep::Nd | Rep::Sf | Rep::Rf) || (x.rep == Rep::Nx && c.srvs[x.srv].trust);
+            // (a server request is a unit: the exchange after a reconnect continues the request)
+            let request_start = |x: &Ex| {
+                o.log.iter().find(|y| y.srv == x.srv && y.rep == Rep::Rst && y.end_us == Some(x.start_us)).map(|y| y.start_us).unwrap_or(x.start_us)
+            };
+            let ended_in_batch = r0.0 == "err:timeout"
+                || o.log.iter().any(|x| x.end_us == Some(r0.1) && request_start(x) <= end && terminal(x));
+            if !retried && !ended_in_batch {
+                rec.fail(idx, format!("server {} answered truncated over UDP at {} ms and was never retried over TCP (result {})", e.srv, end / 1000, r0.0), "");
+            }
+        }
+    }
+
+    // (5) an NXDOMAIN from a server not trusted for negative answers does not end the search:
+    //     if the lookup ends with that NXDOMAIN, every other server must have been tried (or be
+    //     unusable under the protocol policy), or the deadline must have passed.
+    if r0.0 == "err:nx" {
+        let trusted_nx = o.log.iter().any(|e| e.rep == Rep::Nx && e.end_us.is_some() && c.srvs[e.srv].trust);
+        if !trusted_nx {
+            let udp_off = o.log.iter().any(|e| matches!(e.rep, Rep::Tc | Rep::Cm) && e.end_us.is_some());
+            for (i, s) in c.srvs.iter().enumerate() {
+                let tried = o.log.iter().any(|e| e.srv == i);
+                let unusable = udp_off && s.tcp.is_none();
+                if !tried && !unusable && r0.1 < t_us {
+                    rec.fail(idx, format!("lookup ended with an untrusted NXDOMAIN although server {i} was never tried"), "");
+                }
+            }
+        }
+    }
+
+    // (6) a lookup returns the answer of a healthy server whenever one exists and the budget allows.
+    //     Evaluated when every server is either healthy (its first reply is a positive answer, or a
+    //     truncated UDP reply followed by a positive TCP answer) or suffers only transport faults
+    //     (unreachable / reset / timeout / busy-then-anything), or answers an untrusted NXDOMAIN.
+    let all_ans = |v: &Option<Vec<Step>>| v.as_ref().map(|v| v.iter().all(|st| st.rep == Rep::Ans)).unwrap_or(true);
+    let healthy = |s: &Srv| {
+        (all_ans(&s.udp) && all_ans(&s.tcp))
+            || (s.tcp.is_some() && all_ans(&s.tcp) && s.udp.as_ref().map(|v| v.iter().all(|st| st.rep == Rep::Tc)).unwrap_or(false))
+    };
+    let impaired = |s: &Srv| {
+        let okstep = |st: &Step, udp: bool| st.rep.is_fault() || st.rep == Rep::Ans || (st.rep == Rep::Nx && !s.trust) || (udp && st.rep == Rep::Tc && s.tcp.is_some());
+        s.udp.iter().flatten().all(|st| okstep(st, true)) && s.tcp.iter().flatten().all(|st| okstep(st, false))
+    };
+    let in_scope = c.srvs.iter().all(|s| healthy(s) || impaired(s));
+    let any_healthy = c.srvs.iter().any(healthy);
+    if in_scope && any_healthy {
+        // generous budget: every scripted step of every server one after the other + all back-offs
+        let worst: u64 = c.srvs.iter().map(|s| all_steps(s).map(|st| st.lat_ms).sum::<u64>()).sum::<u64>() + 300;
+        if worst * 1000 + TOL_US < t_us {
+            let ok = match r0.0.strip_prefix("ans:s") {
+                Some(rest) => {
+                    let i: usize = rest.trim_end_matches(|ch| ch == 'u' || ch == 't').parse().unwrap_or(99);
+                    i < c.srvs.len()
+                }
+                None => false,
+            };
+            if !ok {
+                // narrow class of the one deviation met: a truncated reply switched the whole lookup to
+                // TCP and the healthy servers that are UDP-only were dropped from the queue unasked
+                let tc_seen = o.log.iter().any(|e| e.rep == Rep::Tc && e.end_us.is_some());
+                let healthy_untried_udp_only = c.srvs.iter().enumerate().any(|(i, s)| healthy(s) && s.tcp.is_none() && !o.log.iter().any(|e| e.srv == i));
+                let class = if tc_seen && healthy_untried_udp_only { "healthy-udp-only-server-skipped-after-truncation" } else { "" };
+                rec.fail(
+                    idx,
+                    format!("a healthy server exists and the time budget allows ({} ms worst case of {} ms) but the lookup returned {}", worst, c.t_ms, r0.0),
+                    class,
+                );
+            }
+        }
+    }
+}
+
+// ------------------------------------------------------------------------------------------------
+// generators
+// ------------------------------------------------------------------------------------------------
+
+const BIG_T: u64 = 3_600_000;
+
+fn mix(a: u64, b2: u64) -> u64 {
+    let mut r = Rng::new(a.wrapping_mul(0x9E37_79B9).wrapping_add(b2));
+    r.next()
+}
+
+/// distinct latencies 3..: a seeded permutation of a grid, so that reply orders vary
+fn lat_pool(r: &mut Rng, n: usize) -> Vec<u64> {
+    let mut v: Vec<u64> = (0..n as u64).map(|i| 3 + 7 * i).collect();
+    for i in (1..v.len()).rev() {
+        let j = r.below(i as u64 + 1) as usize;
+        v.swap(i, j);
+    }
+    v
+}
+
+/// the six behaviours of the property's quantifier
+const BEHAVIOURS: [&str; 6] = ["ans", "nx", "tc", "to", "io", "busy"];
+
+fn behaviour_script(bh: &str, lats: &mut Vec<u64>, over_tcp: bool) -> Vec<Step> {
+    let mut l = || lats.pop().unwrap_or(1);
+    match bh {
+        "busy" => vec![Step { rep: Rep::Busy, lat_ms: l() }, Step { rep: Rep::Ans, lat_ms: l() }],
+        // a truncated reply over TCP would be re-queued over TCP for ever (until the deadline)
+        "tc" if over_tcp => vec![Step { rep: Rep::Tc, lat_ms: l() }, Step { rep: Rep::Ans, lat_ms: l() }],
+        x => vec![Step { rep: Rep::parse(x).unwrap(), lat_ms: l() }],
+    }
+}
+
+fn enumerate_a(o: &Opts, rec: &mut Recorder) {
+    let nmax = if o.thorough() { 4 } else { 3 };
+    let ncrs: &[usize] = if o.thorough() { &[1, 2, 3] } else { &[1, 2] };
+    let mut count = 0u64;
+    for n in 1..=nmax {
+        let total = 6usize.pow(n as u32);
+        for code in 0..total {
+            let bhs: Vec<&str> = (0..n).map(|i| BEHAVIOURS[(code / 6usize.pow(i as u32)) % 6]).collect();
+            for strat in [Strat::User, Strat::Rr, Strat::Qs] {
+                for &ncr in ncrs {
+                    for avail in 0..4 {
+                        for k in [1usize, 3] {
+                            for trust in [false, true] {
+                                count += 1;
+                                let h = mix(o.seed, count);
+                                let mut r = Rng::new(h);
+                                let mut lats = lat_pool(&mut r, 4 * n + 2);
+                                // distinct SRTT ranks for the statistics strategy
+                                let mut warm: Vec<u32> = (0..n as u32).collect();
+                                for i in (1..n).rev() {
+                                    let j = r.below(i as u64 + 1) as usize;
+                                    warm.swap(i, j);
+                                }
+                                let srvs: Vec<Srv> = (0..n)
+                                    .map(|i| {
+                                        // availability: 0 all UDP-only, 1 all UDP+TCP, 2 all TCP-only, 3 mixed
+                                        let av = if avail == 3 { (i + (h as usize >> 8)) % 3 } else { avail };
+                                        let tcp_alt = ["ans", "io", "nx", "tc", "to"][(h as usize >> (3 * i + 11)) % 5];
+                                        let (udp, tcp) = match av {
+                                            0 => (Some(behaviour_script(bhs[i], &mut lats, false)), None),
+                                            1 => (
+                                                Some(behaviour_script(bhs[i], &mut lats, false)),
+                                                Some(behaviour_script(if bhs[i] == "tc" { tcp_alt } else { "ans" }, &mut lats, true)),
+                                            ),
+                                            _ => (None, Some(behaviour_script(bhs[i], &mut lats, true))),
+                                        };
+                                        Srv { trust, warm: if strat == Strat::Qs { warm[i] } else { 0 }, pre_udp: false, pre_tcp: false, udp, tcp }
+                                    })
+                                    .collect();
+                                let c = Case {
+                                    paced: false,
+                                    strat,
+                                    ncr,
+                                    t_ms: BIG_T,
+                                    pre: if strat == Strat::Rr { (h >> 40) as usize % 4 } else { 0 },
+                                    k,
+                                    cx: None,
+                                    srvs,
+                                };
+                                exec(&case_line(&c), rec);
+                            }
+                        }
+                    }
+                }
+            }
+        }
+    }
+}
+
+fn gen_script(r: &mut Rng, lats: &mut Vec<u64>, tcp: bool) -> Vec<Step> {
+    let len = if r.chance(2, 3) { 1 } else { r.range(2, 4) as usize };
+    let mut v = vec![];
+    for i in 0..len {
+        let rep = match r.below(20) {
+            0..=4 => Rep::Ans,
+            5 | 6 => Rep::Nx,
+            7 => Rep::Nd,
+            8 => Rep::Sf,
+            9 => Rep::Rf,
+            10 | 11 => Rep::Tc,
+            12 | 13 => Rep::To,
+            14 | 15 => Rep::Io,
+            16 => Rep::Rst,
+            17 | 18 => Rep::Busy,
+            _ => Rep::Cm,
+        };
+        // the last step repeats: a TCP script must not end re-queueing itself for ever
+        let rep = if i == len - 1 && tcp && matches!(rep, Rep::Tc | Rep::Cm) { Rep::Ans } else { rep };
+        let lat_ms = if r.chance(1, 12) { 0 } else if r.chance(1, 8) { *r.pick(&[5u64, 10, 20, 40]) } else { lats.pop().unwrap_or(2) };
+        v.push(Step { rep, lat_ms });
+    }
+    v
+}
+
+fn random_a(o: &Opts, rec: &mut Recorder) {
+    let mut r = Rng::new(o.seed ^ 0xC18);
+    for _ in 0..o.n(6000, 150_000) {
+        let n = if r.chance(1, 10) { r.range(5, 6) } else { r.range(1, 4) } as usize;
+        let strat = *r.pick(&[Strat::User, Strat::User, Strat::Rr, Strat::Qs]);
+        let mut lats = lat_pool(&mut r, 6 * n + 4);
+        let mut warm: Vec<u32> = (0..n as u32).collect();
+        for i in (1..n).rev() {
+            let j = r.below(i as u64 + 1) as usize;
+            warm.swap(i, j);
+        }
+        let cancel = strat == Strat::User && r.chance(1, 6);
+        let use_pre = !cancel && strat != Strat::Rr && r.chance(1, 5);
+        let srvs: Vec<Srv> = (0..n)
+            .map(|i| {
+                let av = if cancel { r.below(2) * 2 } else { r.below(4) };
+                let mut udp = if av != 2 { Some(gen_script(&mut r, &mut lats, false)) } else { None };
+                let mut tcp = if av >= 1 { Some(gen_script(&mut r, &mut lats, true)) } else { None };
+                if cancel {
+                    let fix = |s: &mut Option<Vec<Step>>, tcp: bool| {
+                        if let Some(v) = s {
+                            v.truncate(1);
+                            if v[0].rep == Rep::Rst || (tcp && matches!(v[0].rep, Rep::Tc | Rep::Cm)) {
+                                v[0].rep = Rep::Io;
+                            }
+                        }
+                    };
+                    fix(&mut udp, false);
+                    fix(&mut tcp, true);
+                }
+                let qs_warm = strat == Strat::Qs && !use_pre;
+                Srv {
+                    trust: r.chance(1, 2),
+                    warm: if qs_warm { if r.chance(1, 30) { 0 } else { warm[i] } } else { 0 },
+                    pre_udp: use_pre && udp.is_some() && r.chance(1, 3),
+                    pre_tcp: use_pre && tcp.is_some() && r.chance(1, 3),
+                    udp,
+                    tcp,
+                }
+            })
+            .collect();
+        let c = Case {
+            paced: false,
+            strat,
+            ncr: *r.pick(&[0usize, 1, 1, 2, 2, 2, 3, 4]),
+            t_ms: BIG_T,
+            pre: if strat == Strat::Rr { r.below(6) as usize } else { 0 },
+            k: if cancel { r.range(1, 3) as usize } else { *r.pick(&[1usize, 1, 2, 3, 4]) },
+            cx: if cancel {
+                let a = r.range(1, 60);
+                Some((a, a + r.range(1, 60)))
+            } else {
+                None
+            },
+            srvs,
+        };
+        exec(&case_line(&c), rec);
+    }
+}
+
+fn random_seq(o: &Opts, rec: &mut Recorder) {
+    let mut r = Rng::new(o.seed ^ 0x5E9);
+    for _ in 0..o.n(3000, 40_000) {
+        let n = r.range(1, 4) as usize;
+        let mut lats = lat_pool(&mut r, 6 * n + 4);
+        let use_pre = r.chance(1, 4);
+        let srvs: Vec<Srv> = (0..n)
+            .map(|_| {
+                let av = r.below(4);
+                let fix = |mut v: Vec<Step>| {
+                    for st in v.iter_mut() {
+                        if st.lat_ms == 0 {
+                            st.lat_ms = 1;
+                        }
+                        // connection-level events matter here: more resets
+                        if st.rep == Rep::Cm {
+                            st.rep = Rep::Rst;
+                        }
+                    }
+                    v
+                };
+                let udp = if av != 2 { Some(fix(gen_script(&mut r, &mut lats, false))) } else { None };
+                let tcp = if av >= 1 { Some(fix(gen_script(&mut r, &mut lats, true))) } else { None };
+                Srv { trust: r.chance(1, 2), warm: 0, pre_udp: use_pre && udp.is_some() && r.chance(1, 2), pre_tcp: use_pre && tcp.is_some() && r.chance(1, 2), udp, tcp }
+            })
+            .collect();
+        let strat = if r.chance(1, 2) { "user" } else { "rr" };
+        let ncr = *r.pick(&[0usize, 1, 1, 2, 2, 3]);
+        let att = match r.below(4) {
+            0 => "-".to_string(),
+            x => (x - 1).to_string(),
+        };
+        let mut line = format!("seq {} {} {} {} {} {}", strat, ncr, BIG_T, att, r.range(1, 4), *r.pick(&[0u64, 1, 10, 100]));
+        for sv in &srvs {
+            line.push(' ');
+            line.push_str(&srv_tok(sv));
+        }
+        exec(&line, rec);
+    }
+}
+
+/// paced (real clock) cases: families around the deadline.  Latencies sit on a coarse grid, the
+/// timeout between grid points, so that every decision has a margin of ≥ 40 ms by construction.
+fn gen_b(o: &Opts) -> Vec<String> {
+    let mut v = vec![];
+    let st = |rep: Rep, lat_ms: u64| Step { rep, lat_ms };
+    let udp_only = |steps: Vec<Step>, trust: bool| Srv { trust, warm: 0, pre_udp: false, pre_tcp: false, udp: Some(steps), tcp: None };
+    let mk = |strat: Strat, ncr: usize, t_ms: u64, k: usize, srvs: Vec<Srv>| case_line(&Case { paced: true, strat, ncr, t_ms, pre: 0, k, cx: None, srvs });
+    let mut r = Rng::new(o.seed ^ 0xB18);
+    let reps = if o.thorough() { 6 } else { 1 };
+    for rep_i in 0..reps {
+        let t = [200u64, 260, 320, 180, 240, 300][rep_i % 6];
+        let g = t / 10; // grid unit
+        // b1: sequential failures cross the deadline between rounds → Timeout at the check
+        v.push(mk(Strat::User, 1, t, 1, vec![udp_only(vec![st(Rep::Io, 6 * g)], true), udp_only(vec![st(Rep::Io, 6 * g)], true), udp_only(vec![st(Rep::Ans, g)], true)]));
+        // b2: regression for the repaired finding C18-F1 — server 1 fails at 0.8 T, server 2 (started
+        //     before the deadline) would only give up after its own timeout T: abandoned at the deadline
+        v.push(mk(Strat::User, 1, t, 1, vec![udp_only(vec![st(Rep::Io, 8 * g)], true), udp_only(vec![st(Rep::To, t)], true)]));
+        // b2': … or answers late
+        v.push(mk(Strat::User, 1, t, 3, vec![udp_only(vec![st(Rep::Io, 8 * g)], true), udp_only(vec![st(Rep::Ans, 7 * g)], true)]));
+        // within budget: the same with early replies
+        v.push(mk(Strat::User, 1, t, 1, vec![udp_only(vec![st(Rep::Io, 2 * g)], true), udp_only(vec![st(Rep::Ans, 3 * g)], true)]));
+        // single server that never answers: its own timeout = T races the pool's deadline (a tie by
+        // nature: implementation-vs-oracle only), and a shorter stream timeout
+        v.push(mk(Strat::User, 2, t, 1, vec![udp_only(vec![st(Rep::To, t)], true)]));
+        v.push(mk(Strat::User, 2, t, 1, vec![udp_only(vec![st(Rep::To, 7 * g)], true)]));
+        // reset on a REUSED connection at 0.75 T, the reconnected request would end at 1.75 T: the
+        // reconnect is inside the request that is raced against the deadline
+        v.push(mk(
+            Strat::User,
+            1,
+            t,
+            1,
+            vec![Srv { trust: true, warm: 0, pre_udp: true, pre_tcp: false, udp: Some(vec![st(Rep::Rst, 15 * g / 2), st(Rep::To, t)]), tcp: None }],
+        ));
+        // b3: everybody busy: back-off 20,40,80,… capped by the remaining budget → Timeout at T
+        v.push(mk(Strat::User, 2, 105, 1, vec![udp_only(vec![st(Rep::Busy, 1)], true)]));
+        // back-off exhausted before the deadline (20+40+80+160 = 300 ms < T)
+        v.push(mk(Strat::User, 2, 420, 1, vec![udp_only(vec![st(Rep::Busy, 1)], true)]));
+        // busy then answer after the first back-off
+        v.push(mk(Strat::Rr, 1, t, 2, vec![udp_only(vec![st(Rep::Busy, g), st(Rep::Ans, 2 * g)], true), udp_only(vec![st(Rep::Io, 3 * g)], true)]));
+        // parallel batch: the slow members would keep the round open across the deadline
+        v.push(mk(Strat::User, 2, t, 1, vec![udp_only(vec![st(Rep::Io, 2 * g)], true), udp_only(vec![st(Rep::To, 8 * g)], true), udp_only(vec![st(Rep::To, 7 * g)], true)]));
+        // truncated → TCP within the budget, and across the deadline
+        let both = |u: Vec<Step>, tc: Vec<Step>| Srv { trust: true, warm: 0, pre_udp: false, pre_tcp: false, udp: Some(u), tcp: Some(tc) };
+        v.push(mk(Strat::User, 1, t, 1, vec![both(vec![st(Rep::Tc, 2 * g)], vec![st(Rep::Ans, 3 * g)])]));
+        v.push(mk(Strat::User, 1, t, 1, vec![both(vec![st(Rep::Tc, 7 * g)], vec![st(Rep::Ans, 8 * g)])]));
+        // TCP keeps answering truncated: re-queued until the deadline ends the loop
+        v.push(mk(Strat::User, 1, t, 1, vec![both(vec![st(Rep::Tc, 5 * g / 2)], vec![st(Rep::Tc, 3 * g)])]));
+        // random grid cases
+        for _ in 0..(if o.thorough() { 12 } else { 10 }) {
+            let n = r.range(1, 3) as usize;
+            let mut slots: Vec<u64> = vec![2, 4, 6, 8, 3, 5, 7, 9];
+            for i in (1..slots.len()).rev() {
+                let j = r.below(i as u64 + 1) as usize;
+                slots.swap(i, j);
+            }
+            let srvs: Vec<Srv> = (0..n)
+                .map(|_| {
+                    let rep = *r.pick(&[Rep::Ans, Rep::Io, Rep::Io, Rep::To, Rep::Nx, Rep::To]);
+                    udp_only(vec![st(rep, slots.pop().unwrap() * g + g / 2 * 0)], r.chance(1, 2))
+                })
+                .collect();
+            v.push(mk(*r.pick(&[Strat::User, Strat::Rr]), r.range(1, 2) as usize, t + g / 2, *r.pick(&[1usize, 1, 3]), srvs));
+        }
+    }
+    v
+}
+
+/// paced cases run concurrently (they mostly sleep); results are recorded in generation order
+fn run_paced(lines: Vec<String>, rec: &mut Recorder) {
+    let threads = 6usize;
+    let n = lines.len();
+    let lines = Arc::new(lines);
+    let next = Arc::new(std::sync::atomic::AtomicUsize::new(0));
+    let results: Arc<Mutex<Vec<Option<Result<Result<RunOut, String>, String>>>>> = Arc::new(Mutex::new((0..n).map(|_| None).collect()));
+    let mut hs = vec![];
+    for _ in 0..threads.min(n.max(1)) {
+        let (lines, next, results) = (lines.clone(), next.clone(), results.clone());
+        hs.push(std::thread::spawn(move || loop {
+            let i = next.fetch_add(1, AO::SeqCst);
+            if i >= lines.len() {
+                break;
+            }
+            let t: Vec<&str> = lines[i].split_whitespace().collect();
+            let Some(c) = parse_case(&t) else { continue };
+            let r = catch(|| {
+                let mut last = None;
+                for _ in 0..3 {
+                    let o = run_case(&c);
+                    let ok = match &o {
+                        Ok(o) => o.max_late_us <= J_US,
+                        Err(_) => true,
+                    };
+                    last = Some(o);
+                    if ok {
+                        break;
+                    }
+                }
+                last.unwrap()
+            });
+            results.lock().unwrap()[i] = Some(r);
+        }));
+    }
+    for h in hs {
+        let _ = h.join();
+    }
+    let mut results = results.lock().unwrap();
+    for (i, l) in lines.iter().enumerate() {
+        let t: Vec<&str> = l.split_whitespace().collect();
+        match (parse_case(&t), results[i].take()) {
+            (Some(c), Some(r)) => finish_case(l, &c, r, rec),
+            _ => {
+                rec.case(l.clone(), "bad-op".into());
+            }
+        }
+    }
+}
+
+pub fn run(o: &Opts, rec: &mut Recorder) {
+    rec.rule = "one lookup (k concurrent callers) through the real NameServerPool over scripted per-(server,protocol) handles; mode A: virtual time, exact comparison of result / exchange log / completion time with the model; mode B: virtual time paced against the real clock so that the pool's std::time::Instant deadline is live. Non-trivial: more than one upstream exchange, or more than one caller, or a back-off sleep; distinct by case line".into();
+    // corpus / replay lines first (paced ones concurrently)
+    let (paced, plain): (Vec<String>, Vec<String>) = o.pre_lines.iter().cloned().partition(|l| l.starts_with("run B "));
+    for l in plain {
+        exec(&l, rec);
+    }
+    run_paced(paced, rec);
+    rec.corpus_cases = rec.cases.len();
+    if o.replay_only {
+        return;
+    }
+    let t0 = Instant::now();
+    enumerate_a(o, rec);
+    eprintln!("c18: enumeration {} cases {:?}", rec.cases.len(), t0.elapsed());
+    random_a(o, rec);
+    eprintln!("c18: +random {} cases {:?}", rec.cases.len(), t0.elapsed());
+    random_seq(o, rec);
+    eprintln!("c18: +seq {} cases {:?}", rec.cases.len(), t0.elapsed());
+    run_paced(gen_b(o), rec);
+    eprintln!("c18: +paced {} cases {:?}", rec.cases.len(), t0.elapsed());
+    exec("real 300 240", rec);
+    exec("real 300 180", rec);
 }
